@@ -258,8 +258,367 @@ fn ops_case(line: &str) -> String {
     out.join(" | ")
 }
 
-fn e2e_case(_line: &str) -> String {
-    "todo".into()
+// ------------------------------------------------------------------------------ e2e
+// Case line: `seed rejects nsteps step* dmg_p dmg_cfg trunc`
+//   rejects: 1 = the cold store rejects reads of files that were not warmed up first
+//   step: 0 v   backup of source variant v
+//         1 k   forget the k-th live snapshot (mod count)
+//         2 m   prune (m = 0: instant delete, max-unused 0; m = 1: mark only, then delete with keep-delete 0)
+//         3 c   config change (compression level c)
+//         4     check
+//         5     restore the latest snapshot and compare with its source
+//         6     repair index --read-all
+//   dmg_p: per-mille probability with which each hot key/snapshot/index/pack file is removed before the repair
+//   dmg_cfg: 1 = the hot config is removed too;  trunc: 1 = one remaining hot file is cut short (incomplete)
+// The history is run on hot+cold (MemBe pair, every inner mutating call logged) and on a single MemBe store.
+// Output: one JSON object per case.
+use rustic_core::repofile::SnapshotFile;
+use rustic_core::{
+    BackupOptions, CheckOptions, ConfigOptions, Credentials, KeyOptions, LimitOption, LocalDestination, LsOptions,
+    OpenStatus, PathList, PruneOptions, RepairIndexOptions, Repository, RepositoryBackends, RepositoryOptions,
+    RestoreOptions,
+};
+use sha2::{Digest, Sha256};
+use std::collections::HashMap;
+use std::path::Path;
+
+struct Env {
+    w: Arc<Mutex<World>>,
+    bes: RepositoryBackends,
+    opts: RepositoryOptions,
+    creds: Credentials,
+    live: Vec<u64>, // variants of the live snapshots in time order
+}
+
+fn new_env(hotcold: bool, rejects: bool) -> Env {
+    let w = Arc::new(Mutex::new(World { normalise_config_id: true, cold_rejects_unwarmed: rejects && hotcold, ..World::default() }));
+    let cold: Arc<dyn WriteBackend> = Arc::new(MemBe { w: w.clone(), hot: false });
+    let hot: Option<Arc<dyn WriteBackend>> = if hotcold { Some(Arc::new(MemBe { w: w.clone(), hot: true })) } else { None };
+    Env {
+        w,
+        bes: RepositoryBackends::new(cold, hot),
+        opts: RepositoryOptions::default().no_cache(true),
+        creds: Credentials::password("pw"),
+        live: vec![],
+    }
+}
+
+fn open(e: &Env) -> RusticResult<Repository<OpenStatus>> {
+    Repository::new(&e.opts, &e.bes)?.open(&e.creds)
+}
+
+fn rnd_bytes(seed: u64, len: usize) -> Vec<u8> {
+    let mut r = SplitMix(seed);
+    (0..len).map(|_| r.next() as u8).collect()
+}
+
+/// variant v: two files shared by all variants, one shared by the variants of the same parity, one of its own
+fn mk_source(dir: &Path, v: u64) {
+    std::fs::create_dir_all(dir.join("sub")).unwrap();
+    std::fs::write(dir.join("c0"), rnd_bytes(1000, 3000)).unwrap();
+    std::fs::write(dir.join("c1"), rnd_bytes(1001, 1700)).unwrap();
+    std::fs::write(dir.join("sub").join(format!("p{}", v % 2)), rnd_bytes(2000 + v % 2, 4100)).unwrap();
+    std::fs::write(dir.join(format!("own{v}")), rnd_bytes(3000 + v, 2500 + 100 * v as usize)).unwrap();
+    std::fs::write(dir.join("empty"), b"").unwrap();
+}
+
+fn tree_digest(dir: &Path) -> String {
+    fn walk(base: &Path, d: &Path, out: &mut Vec<String>) {
+        let mut es: Vec<_> = std::fs::read_dir(d).unwrap().map(|e| e.unwrap().path()).collect();
+        es.sort();
+        for p in es {
+            let rel = p.strip_prefix(base).unwrap().to_string_lossy().to_string();
+            if p.is_dir() {
+                out.push(format!("d {rel}"));
+                walk(base, &p, out);
+            } else {
+                out.push(format!("f {rel} {}", hex::encode(Sha256::digest(std::fs::read(&p).unwrap()))));
+            }
+        }
+    }
+    let mut out = vec![];
+    walk(dir, dir, &mut out);
+    hex::encode(Sha256::digest(out.join("\n").as_bytes()))[..16].to_string()
+}
+
+fn res_str<T>(r: &RusticResult<T>) -> String {
+    match r {
+        Ok(_) => "ok".into(),
+        Err(e) => format!("err:{}", e.to_string().lines().next().unwrap_or("").chars().take(160).collect::<String>()),
+    }
+}
+
+fn do_step(e: &mut Env, tmp: &Path, step: &[u64]) -> String {
+    e.w.lock().unwrap().warm.clear(); // every command starts with a cold cold store
+    let r: RusticResult<String> = (|| {
+        match step[0] {
+            0 => {
+                let v = step[1];
+                let src = tmp.join(format!("src{v}"));
+                if !src.exists() {
+                    mk_source(&src, v);
+                }
+                let repo = open(e)?.to_indexed_ids()?;
+                let opts = BackupOptions::default().as_path(std::path::PathBuf::from("data"));
+                let sn = repo.backup(&opts, &PathList::from_string(src.to_str().unwrap())?, SnapshotFile::default())?;
+                e.live.push(v);
+                Ok(format!("ok tree={}", &sn.tree.to_hex().as_str()[..12]))
+            }
+            1 => {
+                let repo = open(e)?;
+                let mut snaps = repo.get_all_snapshots()?;
+                if snaps.is_empty() {
+                    return Ok("ok none".into());
+                }
+                snaps.sort_by(|a, b| a.time.cmp(&b.time));
+                let k = (step[1] as usize) % snaps.len();
+                repo.delete_snapshots(&[snaps[k].id])?;
+                let _ = e.live.remove(k);
+                Ok("ok".into())
+            }
+            2 => {
+                let repo = open(e)?;
+                let instant = step[1] == 0;
+                let po = PruneOptions::default()
+                    .instant_delete(instant)
+                    .max_unused(LimitOption::Percentage(0))
+                    .keep_delete(rustic_core::jiff::Span::default())
+                    .keep_pack(rustic_core::jiff::Span::default());
+                let plan = repo.prune_plan(&po)?;
+                repo.prune(&po, plan)?;
+                if !instant {
+                    e.w.lock().unwrap().warm.clear();
+                    let repo = open(e)?;
+                    let plan = repo.prune_plan(&po)?;
+                    repo.prune(&po, plan)?;
+                }
+                Ok("ok".into())
+            }
+            3 => {
+                let mut repo = open(e)?;
+                let changed = repo.apply_config(&ConfigOptions::default().set_compression(step[1] as i32))?;
+                Ok(format!("ok changed={changed}"))
+            }
+            4 => {
+                let repo = open(e)?;
+                let r = repo.check(CheckOptions::default())?;
+                Ok(match r.is_ok() {
+                    Ok(()) => "ok clean".into(),
+                    Err(er) => format!("ok errors:{}", er.to_string().lines().next().unwrap_or("").chars().take(160).collect::<String>()),
+                })
+            }
+            5 => {
+                if e.live.is_empty() {
+                    return Ok("ok none".into());
+                }
+                let repo = open(e)?.to_indexed()?;
+                let node = repo.node_from_snapshot_path("latest", |_| true)?;
+                let ls = repo.ls(&node, &LsOptions::default())?;
+                let dest_dir = tempfile::tempdir_in(tmp).unwrap();
+                let dest = LocalDestination::new(dest_dir.path().to_str().unwrap(), true, !node.is_dir())?;
+                let ro = RestoreOptions::default();
+                let plan = repo.prepare_restore(&ro, ls.clone(), &dest, false)?;
+                repo.restore(plan, &ro, ls, &dest)?;
+                let v = *e.live.last().unwrap();
+                let want = tree_digest(&tmp.join(format!("src{v}")));
+                let got = tree_digest(&dest_dir.path().join("data"));
+                Ok(format!("ok same={}", want == got))
+            }
+            _ => {
+                let repo = open(e)?;
+                repo.repair_index(&RepairIndexOptions::default().read_all(true), false)?;
+                Ok("ok".into())
+            }
+        }
+    })();
+    match r {
+        Ok(s) => s,
+        Err(er) => res_str::<()>(&Err(er)),
+    }
+}
+
+fn observe(e: &Env) -> serde_json::Value {
+    // what a user sees: live snapshot trees (time order), number of files per type in the (cold) store
+    let w = e.w.lock().unwrap();
+    let mut counts = [0u64; 5];
+    for ((ft, _), _) in w.maps[1].iter() {
+        counts[*ft as usize] += 1;
+    }
+    serde_json::json!({ "counts": counts.to_vec() })
+}
+
+struct IdMap {
+    m: HashMap<Id, u64>,
+}
+impl IdMap {
+    fn get(&mut self, id: &Id) -> u64 {
+        let n = self.m.len() as u64 + 1;
+        *self.m.entry(*id).or_insert(n)
+    }
+}
+fn abs_content(b: &Bytes) -> (u64, u64) {
+    let d = Sha256::digest(b);
+    (b.len() as u64, u32::from_be_bytes([d[0], d[1], d[2], d[3]]) as u64 >> 2)
+}
+
+fn log_line(w: &World, ids: &mut IdMap, from: usize) -> (String, Vec<u64>) {
+    let mut trees: BTreeSet<u64> = BTreeSet::new();
+    for ev in &w.log {
+        if ev.ft == 4 && ev.write && ev.cacheable {
+            let _ = trees.insert(ids.get(&ev.id));
+        }
+    }
+    let mut t: Vec<String> = vec![trees.len().to_string()];
+    t.extend(trees.iter().map(|x| x.to_string()));
+    t.push(w.log.len().to_string());
+    for ev in &w.log {
+        let (len, h) = ev.data.as_ref().map(abs_content).unwrap_or((0, 0));
+        t.push(format!("{} {} {} {} {} {} {}", if ev.hot { 0 } else { 1 }, ev.write as u8, ev.ft, ids.get(&ev.id), len, h, ev.effect as u8));
+    }
+    let _ = from;
+    (t.join(" "), trees.into_iter().collect())
+}
+
+fn state_line(w: &World, ids: &mut IdMap, with_config: bool) -> String {
+    let side = |m: &BTreeMap<(u8, Id), Bytes>, ids: &mut IdMap| {
+        let mut v: Vec<(u8, u64, u64, u64)> = m
+            .iter()
+            .filter(|((ft, _), _)| with_config || *ft != 0)
+            .map(|((ft, id), b)| {
+                let (l, h) = abs_content(b);
+                (*ft, ids.get(id), l, h)
+            })
+            .collect();
+        v.sort();
+        v
+    };
+    let h = side(&w.maps[0], ids);
+    let c = side(&w.maps[1], ids);
+    let f = |v: &Vec<(u8, u64, u64, u64)>| v.iter().map(|(a, b, c, d)| format!("{a}:{b}:{c}:{d}")).collect::<Vec<_>>().join(",");
+    format!("H{{{}}}C{{{}}}", f(&h), f(&c))
+}
+
+fn e2e_case(line: &str) -> String {
+    let mut t = Toks::new(line);
+    let seed = t.u();
+    let rejects = t.u() == 1;
+    let n = t.u();
+    let mut steps: Vec<Vec<u64>> = vec![];
+    for _ in 0..n {
+        let k = t.u();
+        let mut s = vec![k];
+        if k <= 3 {
+            s.push(t.u());
+        }
+        steps.push(s);
+    }
+    let (dmg_p, dmg_cfg, trunc) = (t.u(), t.u() == 1, t.u() == 1);
+    let tmp = tempfile::tempdir().unwrap();
+    let mut out = serde_json::Map::new();
+    let mut hc = new_env(true, rejects);
+    let mut single = new_env(false, false);
+    let mut step_res = vec![];
+    for (name, e) in [("hc", &mut hc), ("single", &mut single)] {
+        let r = Repository::new(&e.opts, &e.bes).and_then(|r| r.init(&e.creds, &KeyOptions::default(), &ConfigOptions::default()));
+        let _ = out.insert(format!("init_{name}"), res_str(&r).into());
+        // later opens use the master key (no scrypt per open); the key files are still listed and compared
+        if let Ok(r) = r {
+            e.creds = Credentials::Masterkey(r.key());
+        }
+    }
+    let mut marks = vec![];
+    for s in &steps {
+        let a = do_step(&mut hc, tmp.path(), s);
+        let b = do_step(&mut single, tmp.path(), s);
+        marks.push(hc.w.lock().unwrap().log.len());
+        step_res.push(serde_json::json!({"step": s, "hc": a, "single": b, "obs_hc": observe(&hc), "obs_single": observe(&single)}));
+    }
+    let _ = out.insert("steps".into(), step_res.into());
+    let mut ids = IdMap { m: HashMap::new() };
+    let hist_len = hc.w.lock().unwrap().log.len();
+    let _ = out.insert("hist_len".into(), hist_len.into());
+    let _ = out.insert("marks".into(), marks.into());
+    let _ = out.insert("unwarmed_reads_history".into(), hc.w.lock().unwrap().unwarmed_reads.len().into());
+    {
+        let w = hc.w.lock().unwrap();
+        let cold_pack_reads = w.cold_reads.iter().filter(|(ft, _, _)| *ft == 4).count();
+        let _ = out.insert("cold_pack_reads".into(), cold_pack_reads.into());
+        let _ = out.insert("warm_up_calls".into(), w.warm_calls.len().into());
+    }
+    // ---- damage the hot store, then repair
+    let mut r = SplitMix(seed ^ 0xC16);
+    let hot_be = hc.bes.repo_hot().unwrap();
+    let hot_files: Vec<(u8, Id)> = hc.w.lock().unwrap().maps[0].keys().copied().collect();
+    let cold_before: BTreeMap<(u8, Id), Bytes> = hc.w.lock().unwrap().maps[1].clone();
+    let mut removed = 0;
+    let mut kept = vec![];
+    for (ft, id) in &hot_files {
+        let kill = if *ft == 0 { dmg_cfg } else { r.below(1000) < dmg_p };
+        if kill {
+            hot_be.remove(FTS[*ft as usize], id, true).unwrap();
+            removed += 1;
+        } else if *ft != 0 && *ft != 2 {
+            kept.push((*ft, *id));
+        }
+    }
+    let mut truncated = serde_json::Value::Null;
+    if trunc && !kept.is_empty() {
+        let (ft, id) = kept[r.below(kept.len() as u64) as usize];
+        let b = hc.w.lock().unwrap().maps[0][&(ft, id)].clone();
+        let cut = b.slice(0..b.len() / 2);
+        hot_be.write_bytes(FTS[ft as usize], &id, true, BytesList::from(cut)).unwrap();
+        truncated = serde_json::json!([ft, ids.get(&id)]);
+    }
+    let _ = out.insert("removed_hot".into(), removed.into());
+    let _ = out.insert("truncated".into(), truncated);
+    let (_, trees) = log_line(&hc.w.lock().unwrap(), &mut ids, 0);
+    let before = state_line(&hc.w.lock().unwrap(), &mut ids, false);
+    let mut rl: Vec<String> = vec![trees.len().to_string()];
+    rl.extend(trees.iter().map(|x| x.to_string()));
+    {
+        let w = hc.w.lock().unwrap();
+        for m in [&w.maps[0], &w.maps[1]] {
+            let es: Vec<_> = m.iter().filter(|((ft, _), _)| *ft != 0).collect();
+            rl.push(es.len().to_string());
+            for ((ft, id), b) in es {
+                let (l, h) = abs_content(b);
+                rl.push(format!("{} {} {} {}", ft, ids.get(id), l, h));
+            }
+        }
+    }
+    let _ = out.insert("repair_in".into(), rl.join(" ").into());
+    let _ = out.insert("state_before_repair".into(), before.into());
+    hc.w.lock().unwrap().warm.clear();
+    let dmg_len = hc.w.lock().unwrap().log.len();
+    let _ = out.insert("dmg_len".into(), dmg_len.into());
+    let unw0 = hc.w.lock().unwrap().unwarmed_reads.len();
+    let rep: RusticResult<String> = (|| {
+        let repo = Repository::new(&hc.opts, &hc.bes)?.open_only_cold(&Credentials::password("pw"))?;
+        repo.init_hot()?;
+        repo.repair_hotcold_except_packs(false)?;
+        let repo = open(&hc)?;
+        repo.repair_hotcold_packs(false)?;
+        let c = repo.check(CheckOptions::default())?;
+        Ok(match c.is_ok() {
+            Ok(()) => "ok clean".into(),
+            Err(er) => format!("ok errors:{}", er.to_string().lines().next().unwrap_or("").chars().take(200).collect::<String>()),
+        })
+    })();
+    let _ = out.insert("repair".into(), match rep { Ok(s) => s, Err(er) => res_str::<()>(&Err(er)) }.into());
+    let _ = out.insert("unwarmed_reads_repair".into(), (hc.w.lock().unwrap().unwarmed_reads.len() - unw0).into());
+    let _ = out.insert("state_after_repair".into(), state_line(&hc.w.lock().unwrap(), &mut ids, false).into());
+    {
+        let w = hc.w.lock().unwrap();
+        let lost: Vec<String> = cold_before
+            .iter()
+            .filter(|(k, b)| k.0 != 0 && w.maps[1].get(*k) != Some(*b))
+            .map(|(k, _)| format!("{}:{}", k.0, ids.get(&k.1)))
+            .collect();
+        let _ = out.insert("cold_changed".into(), lost.into());
+    }
+    let (ll, _) = log_line(&hc.w.lock().unwrap(), &mut ids, 0);
+    let _ = out.insert("log".into(), ll.into());
+    serde_json::Value::Object(out).to_string()
 }
 
 fn main() {
